@@ -421,10 +421,105 @@ func runRootsReinitFault(c *engine.Ctx, rc rootsCase) {
 	}
 }
 
+// runRootsUnreadable: a periodic (not reinitializing) call on a stored pair that is in the
+// steady state (current valid, next not yet valid: nothing is due) while the call cannot read
+// the pair: because the wrapper it is given cannot open it, because it is given none, or
+// because one storage operation fails with a generic or cancelled error (a not-found answer
+// is what an empty storage gives, so that kind is not used here). The call may fail. If it
+// reports success, the table applies: nothing was due, so storage must still hold the pair.
+func runRootsUnreadable(c *engine.Ctx, rc rootsCase) {
+	r := c.R
+	type variant struct {
+		name string
+		kind string
+		pos  int
+	}
+	vs := []variant{{name: "other-wrapper"}, {name: "no-wrapper"}}
+	for _, kind := range []string{recstore.FaultGeneric, recstore.FaultCancelled} {
+		for pos := 1; pos <= 6; pos++ {
+			vs = append(vs, variant{name: "fault", kind: kind, pos: pos})
+		}
+	}
+	past := map[string]bool{} // fault kinds whose position has moved past the call's last storage operation
+	for _, v := range vs {
+		if past[v.kind] && v.name == "fault" {
+			continue
+		}
+		var rec *recstore.Rec
+		s, err := world.NewServer(world.ServerCfg{Backend: rc.Backend, StorageWrap: rc.Wrap || v.name != "fault", NoRoots: true, Wrap: func(in nodeenrollment.Storage) nodeenrollment.Storage {
+			rec = recstore.New(in)
+			return rec.Wrap()
+		}})
+		if err != nil {
+			r.Broken(err.Error())
+			return
+		}
+		ck, nk := world.NewKeys(), world.NewKeys()
+		now := time.Now()
+		if _, err := storeCrafted(s, ck, nk, now.Add(-time.Hour), now.Add(10*time.Hour), now.Add(5*time.Hour), now.Add(15*time.Hour)); err != nil {
+			r.Broken("crafted store: " + err.Error())
+			s.Close()
+			return
+		}
+		before, berr := s.Roots()
+		if berr != nil {
+			r.Broken("crafted roots do not load: " + berr.Error())
+			s.Close()
+			return
+		}
+		opts := []nodeenrollment.Option{
+			nodeenrollment.WithCertificateLifetime(time.Duration(rc.LifetimeS) * time.Second),
+			nodeenrollment.WithNotBeforeClockSkew(time.Duration(rc.NbSkewS) * time.Second),
+			nodeenrollment.WithNotAfterClockSkew(time.Duration(rc.NaSkewS) * time.Second),
+		}
+		switch v.name {
+		case "other-wrapper":
+			opts = append(opts, nodeenrollment.WithStorageWrapper(world.NewAead("some-other-key")))
+		case "no-wrapper":
+		default:
+			opts = s.Opts(opts...)
+			rec.Arm(v.pos, v.kind)
+		}
+		var ret *types.RootCertificates
+		var cerr error
+		p, st := engine.Guard(func() { ret, cerr = rotation.RotateRootCertificates(s.Ctx, s.Store, opts...) })
+		fired := rec.Fired()
+		rec.Arm(0, "")
+		wit := map[string]any{"case": rc, "variant": v.name, "fault_kind": v.kind, "fault_position": v.pos}
+		desc := fmt.Sprintf("%s|%s|%s|%d", engine.J(rc), v.name, v.kind, v.pos)
+		switch {
+		case p != nil:
+			r.Violation("panic:"+engine.LibraryFrame(st), fmt.Sprintf("RotateRootCertificates panicked: %v", p), wit)
+		case v.name == "fault" && !fired:
+		case cerr != nil:
+			r.Eval(desc, true)
+			r.Count("unreadable_roots:refused:"+v.name, 1)
+			if ret != nil {
+				r.Violation("error-with-roots", "error returned together with a root set", wit)
+			}
+		default:
+			r.Eval(desc, true)
+			r.Count("unreadable_roots:success:"+v.name, 1)
+			after, aerr := s.Roots()
+			if aerr != nil || !proto.Equal(after.Current, before.Current) || !proto.Equal(after.Next, before.Next) {
+				r.Violation("wrong-action:want=nochange,got=replaced-unreadable-roots:"+v.name, fmt.Sprintf("a call that could not read the stored pair (%s %s %d) reported success and storage no longer holds the pair, although current is valid and next is not yet valid", v.name, v.kind, v.pos), wit)
+			}
+		}
+		s.Close()
+		if v.name == "fault" && !fired {
+			past[v.kind] = true
+		}
+	}
+}
+
 func runRootsCase(c *engine.Ctx, rc rootsCase) {
 	r := c.R
 	if rc.Kind == "reinit-fault" {
 		runRootsReinitFault(c, rc)
+		return
+	}
+	if rc.Kind == "unreadable" {
+		runRootsUnreadable(c, rc)
 		return
 	}
 	s, err := world.NewServer(world.ServerCfg{Backend: rc.Backend, StorageWrap: rc.Wrap, NoRoots: true})
@@ -626,6 +721,11 @@ func runRoots(c *engine.Ctx) engine.Result {
 			}
 		}
 	}
+	for _, be := range []string{world.Inmem, world.File} {
+		for _, wrap := range []bool{false, true} {
+			cases = append(cases, rootsCase{Kind: "unreadable", LifetimeS: 36000, NbSkewS: -300, NaSkewS: 300, Wrap: wrap, Backend: be})
+		}
+	}
 	rng := c.Rng("roots")
 	walks := c.Pick(60, 1500)
 	for i := 0; i < walks; i++ {
@@ -648,5 +748,8 @@ func runRoots(c *engine.Ctx) engine.Result {
 	r.Require("walk_steps", 100)
 	r.Require("halfmissing_refused", 1)
 	r.Require("reinit_under_fault:positions", 24)
+	r.Require("unreadable_roots:refused:other-wrapper", 4)
+	r.Require("unreadable_roots:refused:no-wrapper", 4)
+	r.Require("unreadable_roots:refused:fault", 8)
 	return res
 }
